@@ -157,6 +157,21 @@ impl ZmtpEngine {
     }
   }
 
+  /// True when the active framer adds no record layer (NULL/PLAIN): wire chunks may then be
+  /// reordered at frame boundaries. Encrypted framers seal records with sequential nonces, so
+  /// their output must reach the wire in the order it was produced.
+  pub fn framer_is_passthrough(&self) -> bool {
+    self.framer.is_passthrough()
+  }
+
+  /// Encode a data-phase command (PING/PONG) through the active framer, so that on an
+  /// encrypted session it travels inside the record layer like everything else.
+  fn frame_data_phase_command(&mut self, msg: crate::Msg) -> Result<Bytes, ZmqError> {
+    let mut fb = FrameBatch::new();
+    fb.push(msg);
+    self.framer.write_msg_multipart(fb)
+  }
+
   /// Encode a single logical multipart message (FrameBatch) to wire bytes.
   pub fn frame_msgs(&mut self, msgs: FrameBatch) -> Result<Bytes, ZmqError> {
     self.framer.write_msg_multipart(msgs)
@@ -245,7 +260,7 @@ impl ZmtpEngine {
           .map(|d| d.as_millis().min(u16::MAX as u128) as u16)
           .unwrap_or(0);
         let ping_msg = ZmtpCommand::create_ping(ttl_ms, &[]);
-        match encode_msg(ping_msg) {
+        match self.frame_data_phase_command(ping_msg) {
           Ok(data) => {
             out.net_actions.push(NetAction::Send {
               data,
@@ -744,7 +759,7 @@ impl ZmtpEngine {
         match ZmtpCommand::parse(&msg) {
           Some(ZmtpCommand::Ping(ctx)) => {
             let pong = ZmtpCommand::create_pong(&ctx);
-            match encode_msg(pong) {
+            match self.frame_data_phase_command(pong) {
               Ok(data) => out.net_actions.push(NetAction::Send {
                 data,
                 zc_eligible: false,
